@@ -174,6 +174,7 @@ func (pn Image) InitializeForCLI(set *flag.FlagSet) {
 
 type imageNodeGraphSchema struct {
 	Name         string             `json:"name"`
+	Description  string             `json:"description"`
 	CurrentValue *jbtf.Png          `json:"currentValue"`
 	DefaultValue *jbtf.Png          `json:"defaultValue"`
 	CLI          *CliConfig[string] `json:"cli"`
@@ -181,8 +182,9 @@ type imageNodeGraphSchema struct {
 
 func (pn *Image) ToJSON(encoder *jbtf.Encoder) ([]byte, error) {
 	schema := imageNodeGraphSchema{
-		Name: pn.Name,
-		CLI:  pn.CLI,
+		Name:        pn.Name,
+		Description: pn.Description,
+		CLI:         pn.CLI,
 	}
 
 	if pn.Value() != nil {
@@ -207,6 +209,7 @@ func (pn *Image) FromJSON(decoder jbtf.Decoder, body []byte) (err error) {
 	}
 
 	pn.Name = gn.Name
+	pn.Description = gn.Description
 	pn.CLI = gn.CLI
 
 	if gn.DefaultValue != nil {
